@@ -80,7 +80,8 @@ where
             x: 0,
             y: 0,
             size: crop_area.size,
-            row_skip: (size.width - crop_area.size.width) as usize,
+            // `crop_area` can be wider than `size` if its height is zero.
+            row_skip: size.width.saturating_sub(crop_area.size.width) as usize,
         }
     }
 }
